@@ -22,6 +22,7 @@ type captured struct {
 	PointAt []vos.FSPoint
 	EndT    int64
 	Err     string
+	Live    *hapi.Snapshot // the node's state when the history ended (log queue flushed)
 }
 
 // injection: while the K-th compaction file-system call of the run is being made, a burst of further requests
@@ -89,6 +90,7 @@ func runCaptureInject(cfg hapi.Config, hist []SeqOp, everyPoint bool, inj *captu
 		fs.OnPoint = nil
 		out.Final = fs.Image()
 		out.EndT = vrt.Elapsed()
+		out.Live = node.Snapshot()
 	})
 	if rt.Crash != nil {
 		out.Err = "crash while running the history: " + rt.Crash.Value
@@ -102,6 +104,7 @@ type recovered struct {
 	StartErr string
 	Crash    string
 	State    string // user-visible state after load
+	Snap     *hapi.Snapshot
 	Second   string // oracle message of the second restart ("" = fine)
 }
 
@@ -117,7 +120,8 @@ func recoverImage(cfg hapi.Config, im vos.Image, at int64, second bool) recovere
 			return
 		}
 		vrt.AdvanceTo(at + 100*ms)
-		res.State = node.Snapshot().UserString()
+		res.Snap = node.Snapshot()
+		res.State = res.Snap.UserString()
 		if !second {
 			return
 		}
@@ -233,6 +237,13 @@ func c08Histories(quick bool) [][]SeqOp {
 		// records whose last byte (Rcount) differs, semaphore holders
 		{op(0, z(L(0, 1, 1, 0, 90, 5, 1))), op(0, z(L(0, 1, 2, 0, 90, 5, 2))), op(0, z(L(0, 1, 3, 0, 90, 5, 3))), op(0, U(0, 1, 2)), op(0, z(L(0, 1, 3, 0, 90, 5, 3)))},
 	}
+	// a short-lived value-carrying hold between long-lived ones: by the time of the restart it has ended (history 4:
+	// while the node was still up; history 5: during the outage, see c08Downtime)
+	short := protocol.NewLockCommandDataSetString("short-lived").Data
+	yankee := protocol.NewLockCommandDataSetString("yankee").Data
+	zulu := protocol.NewLockCommandDataSetString("zulu-zulu").Data
+	mixed := []SeqOp{op(0, z(L(0, 1, 1, 0, 90, 0, 0))), op(0, withData(z(L(0, 5, 5, 0, 2, 0, 0)), short)), op(0, withData(z(L(0, 2, 2, 0, 80, 0, 0)), yankee)), op(0, z(L(0, 3, 3, 0, 80, 0, 0))), op(0, withData(z(L(0, 4, 4, 0, 80, 0, 0)), zulu))}
+	hs = append(hs, append(append([]SeqOp{}, mixed...), tick(4*sec), op(0, z(L(0, 6, 6, 0, 80, 0, 0)))), mixed)
 	if !quick {
 		hs = append(hs,
 			[]SeqOp{op(0, z(L(0, 1, 1, 0, 90, 0, 0))), tick(2 * sec), op(0, z(L(0, 2, 2, 0, 3, 0, 0))), tick(5 * sec), op(0, z(L(0, 3, 3, 0, 70, 0, 1)))}, // an expiry record in between
@@ -240,6 +251,34 @@ func c08Histories(quick bool) [][]SeqOp {
 		)
 	}
 	return hs
+}
+
+// c08Downtime: how long the node stays down before the restart, per history.
+func c08Downtime(hist int) int64 {
+	if hist == 5 {
+		return 5 * sec
+	}
+	return 0
+}
+
+// liveSig lists what a snapshot holds, without deadlines; holds that end before virtual second endsBefore are left out.
+func liveSig(s *hapi.Snapshot, endsBefore int64) string {
+	var rows []string
+	for _, k := range s.Keys {
+		var hs []string
+		for _, h := range k.Holds {
+			if endsBefore > 0 && h.ExpriedAt < endsBefore {
+				continue
+			}
+			hs = append(hs, fmt.Sprintf("H(id%x depth%d c%d rc%d)", h.LockId[15], h.Depth, h.Count, h.Rcount))
+		}
+		if len(hs) == 0 {
+			continue
+		}
+		rows = append(rows, fmt.Sprintf("db%d key%x value%x: %s", k.DB, k.Key[15], k.Value, strings.Join(hs, " ")))
+	}
+	sort.Strings(rows)
+	return strings.Join(rows, " / ")
 }
 
 type c08Arg struct {
@@ -321,15 +360,29 @@ func evalC08(c *Ctx, cs EnumCase) EnumResult {
 		return EnumResult{Err: cap.Err}
 	}
 	na := newestAppend(cap.Final)
-	ps, perr := prefixStates(cfg, cap.Final, na, cap.EndT)
+	at := cap.EndT + c08Downtime(a.Hist)
+	ps, perr := prefixStates(cfg, cap.Final, na, at)
 	if perr != "" {
 		return EnumResult{Err: perr}
 	}
 	res := EnumResult{}
 	distinct := map[string]bool{}
 	var vs []explore.Violation
+	if a.Kind == "aof-cut" && a.From == 0 {
+		// the prefix states used below are what the loader itself makes of record-boundary cuts; anchor them
+		// once per history to something the loader has no part in: the complete log must recover what the
+		// node held when it stopped, minus the holds that ended since
+		full := recoverImage(cfg, cap.Final, at, false)
+		res.Sub++
+		if full.StartErr == "" && full.Crash == "" && cap.Live != nil {
+			want, got := liveSig(cap.Live, at/sec+2), liveSig(full.Snap, 0)
+			if want != got {
+				vs = append(vs, explore.Violation{Sig: "C08:complete-log-recovers-differently", Msg: fmt.Sprintf("history %d, uncut files, restart %d ms after the stop: recovered [%s]; when it stopped the node held (still live at the restart) [%s]", a.Hist, c08Downtime(a.Hist)/ms, got, want)})
+			}
+		}
+	}
 	judge := func(what string, im vos.Image, maxRec int) {
-		r := recoverImage(cfg, im, cap.EndT, true)
+		r := recoverImage(cfg, im, at, true)
 		res.Sub++
 		if r.Crash != "" {
 			vs = append(vs, explore.Violation{Sig: "C08:recovery-crash", Msg: what + ": " + r.Crash})
